@@ -6,7 +6,7 @@ CRATE = "c05"
 COQ_DIR = "C05"
 COQ_DEPS = []
 PROFILES = ["debug"]
-CORR_IMPORT = "From RlibV Require Import C05.Model C05.Corr.\nOpen Scope N_scope."
+CORR_IMPORT = "From RlibV Require Import C05.Model C05.Corr."
 AUDIT_IMPORT = ("From Coq Require Import List Arith NArith Bool.\nImport ListNotations.\n"
                 "From RlibV Require Import C05.Model C05.Spec C05.Corr C05.Properties.")
 EXPLAIN = "explain"
@@ -66,8 +66,13 @@ def parse_obs(obs):
     return out, finals
 
 
+def num(x):
+    x = int(x)
+    return "d%d" % x if x < 64 else "%d%%N" % x
+
+
 def nl(xs):
-    return "[" + ";".join(str(x) for x in xs) + "]"
+    return "[" + ";".join(num(x) for x in xs) + "]"
 
 
 def snap_term(a):
@@ -77,7 +82,7 @@ def snap_term(a):
 def op_term(o):
     k = o[0]
     name = {"u": "NUn", "k": "NCheck", "p": "NPar", "s": "NSize", "r": "NReset", "c": "NClone"}[k]
-    return "%s %s" % (name, " ".join(str(x) for x in o[1:]))
+    return "%s %s" % (name, " ".join(num(x) for x in o[1:]))
 
 
 def coq_term(c, obs, profile):
@@ -93,10 +98,10 @@ def coq_term(c, obs, profile):
         elif tok == "P":
             r = "OP"
         else:
-            r = "ON %s" % tok[1:]
+            r = "ON %s" % num(tok[1:])
         os_.append("(%s,%s)" % (r, "None" if sn is None else "Some %s" % snap_term(sn)))
-    return "(mkcase %d [%s] [%s] [%s])" % (
-        c["n"], ";".join(op_term(o) for o in c["ops"]), ";".join(os_),
+    return "(mkcase %s [%s] [%s] [%s])" % (
+        num(c["n"]), ";".join(op_term(o) for o in c["ops"]), ";".join(os_),
         ";".join(snap_term(a) for a in (finals or [])))
 
 
@@ -246,7 +251,7 @@ def generate(rng, tier):
         cases.append(gen_binomial(rng, n, True))
         for st in range(4):
             cases.append(gen_chain(rng, n, st))
-    nrand = 900 if tier == "quick" else 12000
+    nrand = 800 if tier == "quick" else 12000
     for i in range(nrand):
         k = rng.below(20)
         if k == 0:
